@@ -171,10 +171,19 @@ def judge(ctx, st, body, kind, expect_kind=None):
     n = len(body)
     p = body[-1] if n else -1
     reg = region(n, p, st["maclen"])
+    a_body, a_seq = bytearray(body), bytearray(st["seq"])
     try:
-        got = ct_check_cbc_mac_and_pad(bytearray(body), st["libmac"],
-                                       bytearray(st["seq"]), st["ctype"], ver,
-                                       block)
+        got = ct_check_cbc_mac_and_pad(a_body, st["libmac"], a_seq,
+                                       st["ctype"], ver, block)
+        if a_body != bytearray(body) or a_seq != bytearray(st["seq"]):
+            # a caller that keeps its buffers (a receive loop re-using the
+            # sequence number bytes) gets wrong answers from then on
+            viol(ctx, {"clause": "func_mutates_argument", "fam": fam,
+                       "arg": "data" if a_body != bytearray(body)
+                       else "seqnumBytes"},
+                 wit(st, body, want, got),
+                 "ct_check_cbc_mac_and_pad changed its %s argument" % (
+                     "data" if a_body != bytearray(body) else "seqnumBytes"))
     except Exception as e:   # noqa
         ctx.ev()
         viol(ctx, {"clause": "func_exception", "exc": type(e).__name__,
